@@ -376,7 +376,9 @@ def refresh_replay(ctx, edges, uni, tag, rng, budget=None):
     res = {"tours": len(tours), "steps": summ["steps"], "bad": len(bad), "skipped": len(skipped),
            "truncated": truncated, "known": 0, "known_not_rerun": 0, "contact_mismatch": 0, "flaky": 0,
            "planned": sum(len(t["steps"]) for t in tours),
-           "selected": len(moves) if select is None else len(select), "edges": len(moves)}
+           "selected": len(moves) if select is None else len(select), "edges": len(moves),
+           "nontrivial": sum(1 for e in (moves if select is None else select)
+                             if e["act"]["a"] == "refresh" and (e["failed"] or e["rew"]))}
     if skipped:
         ctx.log("skipped tours, first: %s" % json.dumps(skipped[0])[:500])
     if not bad:
@@ -597,7 +599,7 @@ def run(ctx):
         raise vlib.Inconclusive("tour harness skipped %d tours, %d contact mismatches" % (skipped, contact))
     if steps_a + res2["truncated"] + res3["truncated"] < res2["planned"] + res3["planned"]:
         raise vlib.Inconclusive("tours walked %d of %d planned steps" % (steps_a, res2["planned"] + res3["planned"]))
-    nontrivial_edges = sum(1 for e in edges + edges3 if e["act"]["a"] == "refresh" and (e["failed"] or e["rew"]))
+    nontrivial_edges = res2["nontrivial"] + res3["nontrivial"]
     trace_steps = sum(1 for r in rrows if r.get("ev") == "step")
     samples = [
         {"parser_vector": vectors[len(vectors) // 3]},
